@@ -57,3 +57,9 @@ for _k in ('DFA', 'NFA', 'PDA', 'TM'):
     contract('gambatools.notebook', 'check_max_states', {'A': _k, 'max_states': 'Int'}, returns='List[Text]', variant=_k, requires=[],
              ensures=['(len(result) == 0) == (not (0 < max_states and max_states < card(A.Q)))', 'len(result) <= 1'],
              theories=[], props=['C12', 'C19'], note='no feedback exactly when the state bound is switched off (0) or respected')
+
+# the PDA branch of the dispatch: the same two statements as pda_words_up_to_n (sound for every closure limit, exact when no closure computation hits it)
+from .pda import _PRS as _PDA_SOUND, _PRC as _PDA_EXACT
+contract(M, 'generate_language', {'L': 'PDA', 'n': 'Int'}, returns='Set[Word]', variant='PDA', requires=['n >= 0'],
+         ensures=[(_PDA_SOUND % 'n').replace('P.', 'L.').replace('(P,', '(L,'), (_PDA_EXACT % 'n').replace('P.', 'L.').replace('(P,', '(L,')],
+         theories=['word', 'pda'], props=['C02', 'C12'])
